@@ -165,6 +165,17 @@ def families(tier, seed):
     return fams
 
 
+def _twin_axis_special():
+    """mutant: Vector.__eq__ ignores the z component (an axis is treated specially)"""
+    from Geometry3D.utils.constant import get_eps
+
+    def eq(self, other):
+        return abs(self._v[0] - other._v[0]) < get_eps() and abs(self._v[1] - other._v[1]) < get_eps()
+    Vector.__eq__ = eq
+
+
+TWINS = {'Vector.__eq__ ignores z': (r'^Line-Segment/', _twin_axis_special)}
+
 META = dict(
     title='queries commute with lattice isometries and scaling',
     level_text=('Relational bounded symbolic model checking: a C01-C03 operand pair (1-2 real parameters) and its image under x -> k*g(x) + tau (g one of the 48 '
